@@ -18,6 +18,7 @@ import CassisModel.Model.TsXml
 import CassisModel.Model.Comparable
 import CassisModel.Spec.RoundTripCheck
 import CassisModel.Spec.RoundTripCollCheck
+import CassisModel.Spec.RoundTripJsonCollCheck
 import CassisModel.Gen.Builtins
 import CassisModel.Spec.BuiltinChecks
 
@@ -697,7 +698,35 @@ def runOp (j : Json) : M Json := do
     let w ← get
     -- "coll": the theorem for the whole format (C01RoundTripColl / C01AppliesColl: `collAppliesB_sound`)
     pure (jOk (Json.mkObj [("flat", Json.bool (Xmi.rtAppliesB K ts w.cass.toList ci w.heap)),
-                           ("coll", Json.bool (Xmi.collAppliesB K ts w.cass.toList ci w.heap))]))
+                           ("coll", Json.bool (Xmi.collAppliesB K ts w.cass.toList ci w.heap)),
+                           ("jcoll", Json.bool (Json.jcollAppliesB K ts w.cass.toList ci w.heap))]))
+  | "rt.why" =>
+    -- diagnostics: which hypothesis of the round-trip theorems fails for this CAS
+    let (ci, _) ← getHandle (← liftP (fldNat j "h"))
+    let (_, ts) ← casTsOf ci
+    let w ← get
+    let cass := w.cass.toList
+    match cass[ci]? with
+    | none => pure (jErr "KeyError")
+    | some c =>
+      let xs := match Xmi.saveXmi K ts cass ci w.heap with
+        | .error e => [("saveXmi", Json.str e.toString)]
+        | .ok (_, st) => [("rtWf", Json.bool (Xmi.rtWfB c w.heap)), ("nullOk", Json.bool (Xmi.nullOkB ts)),
+            ("collFsBad", jList jStr ((st.allFs.filter (fun q => !(Xmi.collFsB K ts c ci st.heap q.2))).map (fun q => (Comparable.tyOf st.heap q.2)))),
+            ("featBad", jList jStr ((st.allFs.filter (fun q => !(Xmi.collFsB K ts c ci st.heap q.2))).flatMap (fun q =>
+              match st.heap[q.2]? with
+              | none => []
+              | some o => match TS.find? ts o.ty with
+                | none => ["<type>"]
+                | some t => ((TS.allFeatures t).filter (fun f => !(Xmi.collFeatB K ts c ci st.heap (TS.isInstanceOf ts o.ty TS.ANNOTATION) o f))).map
+                    (fun f => f.name ++ ":" ++ f.range ++ (match f.multi with | some true => "+" | _ => ""))))),
+            ("disjoint", Json.bool (Xmi.disjointB st.allFs c)), ("memSofa", Json.bool (Xmi.memSofaB c st.heap)),
+            ("membersOk", Json.bool (Xmi.membersOkB c st.heap))]
+      let js := match Json.saveJson K ts cass ci w.heap .none with
+        | .error e => [("saveJson", Json.str e.toString)]
+        | .ok (_, st) => [("jcollFsBad", jList jStr ((st.allFs.filter (fun q => !(Json.jcollFsB K ts c ci st.heap q.2))).map (fun q => (Comparable.tyOf st.heap q.2)))),
+            ("memberIds", Json.bool (Json.memberIdsB c w.heap)), ("jmembersOk", Json.bool (Xmi.membersOkB c st.heap))]
+      pure (jOk (Json.mkObj (xs ++ js)))
   | "cas.new" =>
     let ti ← liftP (fldNat j "ts")
     let _ ← getTs ti
